@@ -1314,7 +1314,6 @@ class ThreadsafeForwardingResult(TestResult):
                 self.result.stopTest(test)
         finally:
             self.semaphore.release()
-        self._test_start = None
 
     def addError(self, test, err=None, details=None):
         self._add_result_with_semaphore(
@@ -1392,6 +1391,13 @@ class ThreadsafeForwardingResult(TestResult):
     def startTest(self, test):
         self._test_start = self._now()
         super().startTest(test)
+
+    def stopTest(self, test):
+        # The test is over: tag changes made after its outcome was forwarded
+        # were local to it and must not be replayed for any later test.
+        self._test_start = None
+        self._test_tags = set(), set()
+        super().stopTest(test)
 
     def wasSuccessful(self):
         return self.result.wasSuccessful()
